@@ -31,7 +31,7 @@ def ftKind (k : String) (f : Bytes) : String :=
   | "OggFLAC" => ftOut (loadOggFlac f) fun _ => "1"
   | "FLAC" => ftOut (loadFlac f) fun _ => "-"
   | "ASF" => ftOut (loadAsf f) fun _ => "1"
-  | "MP4" => ftOut (loadMp4 f) fun v => ftOpt v.tags
+  | "MP4" => ftOut (loadMp4 f) fun v => ftOpt v.base.tags
   | "AAC" => ftOut (loadAac f) fun _ => "0"
   | "AC3" => ftOut (loadAc3 f) fun _ => "0"
   | "SMF" => ftOut (loadSmf f) fun _ => "0"
